@@ -74,13 +74,21 @@ def render(model, layout):
             L.append('* a comment between columns')
     if in_int:
         L.append(f"    MARKER{marker}   'MARKER'      'INTEND'")
+    def pairs(setname, ents):
+        # data lines of RHS / RANGES carry one or (5-field layout) two (row, value) pairs, like COLUMNS lines
+        i = 0
+        while i < len(ents):
+            if layout.get('five') and i + 1 < len(ents):
+                L.append(f"    {setname}  {ents[i][0]}  {ents[i][1]}   {ents[i + 1][0]}  {ents[i + 1][1]}")
+                i += 2
+            else:
+                L.append(f"    {setname}  {ents[i][0]}  {ents[i][1]}")
+                i += 1
     L.append('RHS')
-    for r, t in model['rhs']:
-        L.append(f"    RHS1  {r}  {t}")
+    pairs('RHS1', list(model['rhs']))
     if model['ranges']:
         L.append('RANGES')
-        for r, t in model['ranges']:
-            L.append(f"    RNG1  {r}  {t}")
+        pairs('RNG1', list(model['ranges']))
     L.append('BOUNDS')
     for c in model['cols']:
         for bt, t in c['bounds']:
@@ -142,7 +150,7 @@ def build(chk):
     rd = Rd(chk)
     chk.bounds = {'models': '2 columns x 2 rows + objective row (the property quantifies 6 x 5); every row type (E/L/G), every bound scenario ' + str(BOUND_SCEN) +
                   ', positive/negative ranges, objective constant through the RHS of the objective row, MIN/MAX/absent sense; all coefficients, right-hand sides, ranges and bound values symbolic reals',
-                  'layouts': '3- or 5-field COLUMNS lines, comment lines, blank line, OBJSENSE inline or on its own line, objective row named OBJ or COST',
+                  'layouts': '3- or 5-field COLUMNS / RHS / RANGES lines, comment lines, blank line, OBJSENSE inline or on its own line, objective row named OBJ or COST',
                   'faults': 'undeclared row in COLUMNS / RHS / RANGES, unknown row type, bound type, marker, sense keyword, unparsable number'}
     chk.assumptions += ['lexing is modelled, not executed: BufRead::lines, str::trim/split_whitespace/starts_with/strip_prefix act on concrete text; f64::from_str maps a number token to a '
                         'symbolic real (assumed finite) and rejects text outside the Rust float grammar; gzip and byte-level decoding are outside',
@@ -167,11 +175,12 @@ def build(chk):
             k, v = T.num(name, **kw)
             vals[k] = v
             return k
-        rtypes = [['E', 'L', 'G'][P.choose(3)] for _ in range(2)] if variant in ('rows', 'ranges') else ['L', 'E']
+        NC, NR = (3, 3) if variant == 'wide' else (2, 2)      # 'wide' (thorough tier): 3 columns x 3 rows, every row type, all entries present
+        rtypes = [['E', 'L', 'G'][P.choose(3)] for _ in range(NR)] if variant in ('rows', 'ranges', 'wide') else ['L', 'E']
         rows = [{'type': 'N', 'name': objname}] + [{'type': t, 'name': f'R{i}'} for i, t in enumerate(rtypes)]
         cols = []
-        for j in range(2):
-            scen = BOUND_SCEN[P.choose(len(BOUND_SCEN))] if (variant == 'bounds' and j == 0) else ([['UP'], ['LO', 'UP']][j] if variant != 'bounds' else [])
+        for j in range(NC):
+            scen = BOUND_SCEN[P.choose(len(BOUND_SCEN))] if (variant == 'bounds' and j == 0) else ([['UP'], ['LO', 'UP'], ['MI']][j] if variant != 'bounds' else [])
             bounds = []
             for bt in scen:
                 real = bt.rstrip('+')
@@ -180,21 +189,21 @@ def build(chk):
             ents = []
             if variant != 'sparse' or P.choose(2):
                 ents.append((objname, num(f'c{j}')))
-            for i in range(2):
+            for i in range(NR):
                 if variant not in ('sparse',) or P.choose(2):
                     ents.append((f'R{i}', num(f'a{i}{j}')))
             if not ents:
                 continue      # a column without any entry cannot be declared in an MPS file
             cols.append({'name': f'x{j}' if variant != 'names' else ['alpha', 'OMMX_VAR_7'][j], 'integer': integer, 'entries': ents, 'bounds': bounds})
         rhs = []
-        if variant in ('objective', 'rows') and P.choose(2):
+        if (variant in ('objective', 'rows') and P.choose(2)) or variant == 'wide':
             rhs.append((objname, num('k')))
-        for i in range(2):
+        for i in range(NR):
             if P.choose(2) if variant in ('rows', 'sparse') else True:
                 rhs.append((f'R{i}', num(f'b{i}')))
         ranges = []
-        if variant == 'ranges':
-            for i in range(2):
+        if variant in ('ranges', 'wide'):
+            for i in range(NR if variant == 'ranges' else 1):
                 if P.choose(2):
                     ranges.append((f'R{i}', num(f'r{i}', nonzero=True)))
         sense = [None, 'MIN', 'MAX'][P.choose(3)] if variant in ('objective',) else 'MAX'
@@ -356,7 +365,7 @@ def build(chk):
         return h
 
     LAYOUTS = [{'objsense_inline': True}, {'five': True, 'comments': True, 'blank': True}]
-    for variant in ('bounds', 'rows', 'ranges', 'objective', 'sparse', 'kinds', 'names'):
+    for variant in ('bounds', 'rows', 'ranges', 'objective', 'sparse', 'kinds', 'names') + (('wide',) if chk.tier == 'thorough' else ()):
         for li, layout in enumerate(LAYOUTS):
             if chk.tier == 'quick' and li == 1 and variant in ('bounds', 'sparse', 'kinds'):
                 continue
